@@ -310,7 +310,7 @@ func (s *session) recoverAll(ctx context.Context) string {
 			case "diskpacked":
 				did = true
 				s.world.KVState(n.Name + ".idx").Wipe()
-				dir := filepath.Join(s.world.Dir, n.Name)
+				dir := s.world.NodeDir(n.Name)
 				if err := diskpacked.Reindex(ctx, dir, true, jsonconfig.Obj{"type": "simkv", "name": n.Name + ".idx"}); err != nil {
 					msg = "diskpacked.Reindex failed after a transient fault: " + err.Error()
 					if os.Getenv("VERIF_DEBUG") != "" {
@@ -427,6 +427,11 @@ func execC13(rc *harness.RunCtx, p *harness.Plan, cfg *Config, ops []sim.Op) *ha
 				}
 				if sr.viol != "" {
 					o := mkViol(sr, &fsite)
+					if what, ok := harness.Known(p.Prop, o.Violation.Sig); ok {
+						out.NoteKnown(what)
+						out.Violation, out.ReplayPlan = nil, nil
+						continue
+					}
 					o.ReplayPlan.Faults = []sim.Fault{f}
 					o.ReplayPlan.SchedSeed = subSeed
 					return o
